@@ -701,6 +701,7 @@ func (r *collection) addService(service any, lifetime Lifetime, opts ...AddOptio
 	// Handle As option - register under interface types
 	if len(options.As) > 0 {
 		// When As is specified, register the service under each interface type
+		outputs := make([]*Descriptor, 0, len(options.As))
 		for _, iface := range options.As {
 			interfaceType := reflect.TypeOf(iface).Elem()
 
@@ -742,6 +743,15 @@ func (r *collection) addService(service any, lifetime Lifetime, opts ...AddOptio
 					Operation:   "register as interface",
 					Cause:       err,
 				}
+			}
+
+			outputs = append(outputs, interfaceDescriptor)
+		}
+
+		// The aliases stand for one service: whichever is resolved first, the instance is stored under all of them
+		if len(outputs) > 1 {
+			for _, output := range outputs {
+				output.outputs = outputs
 			}
 		}
 
